@@ -58,6 +58,7 @@ func (e *Exec) resetPath() {
 	e.envResults = map[string]*Term{}
 	e.serverClosed = map[Ptr]bool{}
 	e.ctxTimeouts = nil
+	e.timerDurs = nil
 	e.model = map[*Term]*Term{}
 	e.modelOK = true
 	e.tt.fresh = 0
@@ -142,6 +143,10 @@ type ExploreResult struct {
 // Explore runs the DFS below the fixed decision prefix. wantWork/donate implement work splitting:
 // when other workers are idle the shallowest unexplored alternatives are handed over.
 func (e *Exec) Explore(h *HarnessCfg, inst int, deadline time.Time, prefix []Decision, wantWork func() bool, donate func([]Decision)) *ExploreResult {
+	e.deadline = deadline
+	if e.solver != nil {
+		e.solver.deadline = deadline
+	}
 	t0 := time.Now()
 	e.harness = h.Fn
 	e.hcfg = h
